@@ -264,6 +264,7 @@ def failure_scenarios():
         return SM("K", K={"Type": "Task", "Resource": "arn:aws:states:::states:startExecution.sync", "TimeoutSeconds": timeout,
                           "Parameters": {"StateMachineArn": "arn:aws:states:local:0123456789:stateMachine:" + child, "Input": {"n": 1}, "Name": "kid"},
                           "ResultPath": "$.r", "Next": "P2"}, P2=P(End=True))
+    S.append(scn("child-sync-ok", parent("kido", 30), extra_machines=[{"name": "kido", "type": "STANDARD", "asl": chain(("C0", P()), ("C1", T("h")), ("C2", P()))}]))
     S.append(scn("child-elapsed-wait-task-parent-timeout", parent("kidm", 2), oracle={"h": [{"silent": True}]}, workers=["h"],
                  extra_machines=[{"name": "kidm", "type": "STANDARD", "asl": chain(("CW", Wt(0)), ("C1", T("h")), ("C2", P()))}]))
     S.append(scn("child-wait-parent-timeout", parent("kidw", 2),
